@@ -276,6 +276,31 @@ pub open spec fn reads_store(w: World, s: Store) -> bool {
         && (w.dom().contains(r) ==> w[r] == s[r.id as int]->Node_0)
 }
 
+// `reads_store` is satisfiable (so `built`, which quantifies over every such `w`, is not vacuous)
+pub proof fn lemma_world_exists(s: Store)
+    requires s.len() <= u64::MAX
+    ensures exists|w: World| reads_store(w, s)
+    decreases s.len()
+{
+    if s.len() == 0 {
+        let w = Map::<PlainRef, PagesNode>::empty();
+        assert(reads_store(w, s));
+    } else {
+        let k = (s.len() - 1) as int;
+        let s0 = s.drop_last();
+        lemma_world_exists(s0);
+        let w0 = choose|w: World| reads_store(w, s0);
+        let w = match s[k] { Slot::Node(n) => w0.insert(ref_of(k), n), _ => w0 };
+        assert forall|r: PlainRef| ((#[trigger] w.dom().contains(r)) <==> (r.gen == 0 && r.id < s.len() && s[r.id as int] is Node))
+            && (w.dom().contains(r) ==> w[r] == s[r.id as int]->Node_0) by {
+            assert(w0.dom().contains(r) <==> (r.gen == 0 && r.id < s0.len() && s0[r.id as int] is Node));
+            if r.id < s0.len() { assert(s0[r.id as int] == s[r.id as int]); }
+            if r == ref_of(k) { assert(r.id == k); }
+        }
+        assert(reads_store(w, s));
+    }
+}
+
 // a /Kids list whose members are all pages: well formed at any height, and its leaves are the kids themselves
 pub proof fn lemma_flat(w: World, kids: Seq<Ref<PagesNode>>, d: nat)
     requires d >= 1, forall|i: int| 0 <= i < kids.len() ==> w.dom().contains(#[trigger] kids[i].inner) && w[kids[i].inner] is Leaf,
@@ -336,6 +361,8 @@ pub open spec fn built_w(pre: Store, post: Store, bs: Seq<PageBuilder>, cat: Cat
     &&& t.parent is None
     // whose tree is well formed (every kid defined, /Count = number of leaves) ...
     &&& wf_tree(w, t, 1)
+    // (and at the depth budget of `PageTree::page`, so that the hypothesis of units/pagetree `get_page_lookup` holds)
+    &&& wf_tree(w, t, 16) && tree_leaves(w, t, 16) == lv
     // ... with exactly the given pages as leaves, in the given order, each carrying its builder's fields
     &&& lv.len() == bs.len()
     &&& forall|i: int| 0 <= i < bs.len() ==> (#[trigger] w[lv[i]] matches PagesNode::Leaf(p) && page_of(bs[i], p, root, post))
@@ -394,7 +421,9 @@ pub proof fn lemma_built_w(pre: Store, post: Store, bs: Seq<PageBuilder>, cat: C
             assert(w.dom().contains(ref_of(n0 + i)));
         }
         lemma_flat(w, kids, 1);
+        lemma_flat(w, kids, 16);
         let lv = tree_leaves(w, t, 1);
+        assert(tree_leaves(w, t, 16) =~= lv);
         assert(lv =~= Seq::new(kids.len(), |i: int| kids[i].inner));
         assert forall|i: int| 0 <= i < bs.len() implies (#[trigger] w[lv[i]] matches PagesNode::Leaf(p) && page_of(bs[i], p, root, post)) by {
             assert(lv[i] == ref_of(n0 + i));
@@ -568,6 +597,264 @@ impl PdfBuilder {
 //@@ PdfBuilder::info
 //@@ PdfBuilder::id
 //@@ PdfBuilder::build
+}
+
+// ====================================================================================================================
+// Part B: the DERIVED WRITERS of Page / PageTree / Catalog (pdf_derive output) under the whole-dictionary model of
+// units/expansions: for each declared (key, field) the entry `writes(field)` unless that is Null, the /Type tag, on top
+// of the catch-all -- nothing else.  Writer-world traits (the expansions name them by full path) live in `pdf::object`;
+// they are the abstract field codecs of units/expansions ("a writer is a function of the value, may fail only if `wfail`,
+// never forgets created objects").
+pub mod pdf {
+    pub mod error { pub use crate::PdfError; pub use crate::Result; }
+    pub mod primitive { pub use crate::Primitive; pub use crate::Dictionary; pub use crate::SmallString; pub use crate::Name; }
+    pub mod object {
+        use vstd::prelude::*;
+        use crate::{PlainRef, RcRef, Primitive, Result};
+        pub open spec fn submap(a: Map<PlainRef, Primitive>, b: Map<PlainRef, Primitive>) -> bool {
+            forall|r: PlainRef| #![trigger a.dom().contains(r)] a.dom().contains(r) ==> b.dom().contains(r) && b[r] == a[r]
+        }
+        pub trait Updater: Sized {
+            spec fn created(&self) -> Map<PlainRef, Primitive>;
+            // the crate's `create<T: ObjectWrite>`; the expansions instantiate it at T = Primitive only (units/expansions)
+            fn create(&mut self, obj: Primitive) -> (r: Result<RcRef<Primitive>>)
+                ensures
+                    r is Err ==> final(self).created() == old(self).created(),
+                    r matches Ok(rc) ==> !old(self).created().dom().contains(rc.inner)
+                        && final(self).created() == old(self).created().insert(rc.inner, obj)
+                        && final(self).created().dom().contains(rc.inner) && final(self).created()[rc.inner] == obj;
+        }
+        pub trait ObjectWrite: Sized {
+            spec fn writes(&self) -> Primitive;
+            spec fn wfail(&self) -> bool;
+            fn to_primitive<U: Updater>(&self, update: &mut U) -> (r: Result<Primitive>)
+                ensures
+                    r matches Ok(p) ==> p == self.writes(),
+                    r is Err ==> self.wfail(),
+                    submap(old(update).created(), final(update).created());
+        }
+    }
+}
+use pdf::object::ObjectWrite as WObjectWrite;
+use pdf::object::submap;
+
+// ---- field codecs.  Concrete where the C10 statement needs the value:
+pub uninterp spec fn abs_writes<T>(x: T) -> Primitive;
+pub uninterp spec fn abs_wfail<T>(x: T) -> bool;
+// proved in units/expansions_hw: i32_to_primitive/wr_value
+impl WObjectWrite for i32 {
+    open spec fn writes(&self) -> Primitive { Primitive::Integer(*self) }
+    open spec fn wfail(&self) -> bool { false }
+    #[verifier::external_body]
+    fn to_primitive<U: pdf::object::Updater>(&self, update: &mut U) -> Result<Primitive> { unimplemented!() }
+}
+// proved in units/expansions_hw: u32_to_primitive/wr_value (`writes_nat`: the Integer denoting that number, or an error)
+impl WObjectWrite for u32 {
+    open spec fn writes(&self) -> Primitive { if *self <= i32::MAX { Primitive::Integer(*self as i32) } else { abs_writes(*self) } }
+    open spec fn wfail(&self) -> bool { *self > i32::MAX }
+    #[verifier::external_body]
+    fn to_primitive<U: pdf::object::Updater>(&self, update: &mut U) -> Result<Primitive> { unimplemented!() }
+}
+// proved in units/expansions_hw: Option to_primitive (None => Null, Some(t) => what t writes)
+impl<T: WObjectWrite> WObjectWrite for Option<T> {
+    open spec fn writes(&self) -> Primitive { match *self { None => Primitive::Null, Some(t) => t.writes() } }
+    open spec fn wfail(&self) -> bool { match *self { None => false, Some(t) => t.wfail() } }
+    #[verifier::external_body]
+    fn to_primitive<U: pdf::object::Updater>(&self, update: &mut U) -> Result<Primitive> { unimplemented!() }
+}
+impl WObjectWrite for Name {
+    open spec fn writes(&self) -> Primitive { Primitive::Name(self.0) }
+    open spec fn wfail(&self) -> bool { false }
+    #[verifier::external_body]
+    fn to_primitive<U: pdf::object::Updater>(&self, update: &mut U) -> Result<Primitive> { unimplemented!() }
+}
+impl WObjectWrite for Primitive {
+    open spec fn writes(&self) -> Primitive { *self }
+    open spec fn wfail(&self) -> bool { false }
+    #[verifier::external_body]
+    fn to_primitive<U: pdf::object::Updater>(&self, update: &mut U) -> Result<Primitive> { unimplemented!() }
+}
+// object/mod.rs:276 (RcRef), :206 (Ref): the reference itself
+impl<T> WObjectWrite for RcRef<T> {
+    open spec fn writes(&self) -> Primitive { Primitive::Reference(self.inner) }
+    open spec fn wfail(&self) -> bool { false }
+    #[verifier::external_body]
+    fn to_primitive<U: pdf::object::Updater>(&self, update: &mut U) -> Result<Primitive> { unimplemented!() }
+}
+impl<T> WObjectWrite for Ref<T> {
+    open spec fn writes(&self) -> Primitive { Primitive::Reference(self.inner) }
+    open spec fn wfail(&self) -> bool { false }
+    #[verifier::external_body]
+    fn to_primitive<U: pdf::object::Updater>(&self, update: &mut U) -> Result<Primitive> { unimplemented!() }
+}
+// abstract (a function of the value): containers and the opaque models
+impl<T: WObjectWrite> WObjectWrite for Vec<T> {
+    open spec fn writes(&self) -> Primitive { abs_writes(*self) }
+    open spec fn wfail(&self) -> bool { abs_wfail(*self) }
+    #[verifier::external_body]
+    fn to_primitive<U: pdf::object::Updater>(&self, update: &mut U) -> Result<Primitive> { unimplemented!() }
+}
+impl<T> WObjectWrite for MaybeRef<T> {
+    open spec fn writes(&self) -> Primitive { abs_writes(*self) }
+    open spec fn wfail(&self) -> bool { abs_wfail(*self) }
+    #[verifier::external_body]
+    fn to_primitive<U: pdf::object::Updater>(&self, update: &mut U) -> Result<Primitive> { unimplemented!() }
+}
+impl<T> WObjectWrite for Lazy<T> {
+    open spec fn writes(&self) -> Primitive { abs_writes(*self) }
+    open spec fn wfail(&self) -> bool { abs_wfail(*self) }
+    #[verifier::external_body]
+    fn to_primitive<U: pdf::object::Updater>(&self, update: &mut U) -> Result<Primitive> { unimplemented!() }
+}
+impl<T> WObjectWrite for NumberTree<T> {
+    open spec fn writes(&self) -> Primitive { abs_writes(*self) }
+    open spec fn wfail(&self) -> bool { abs_wfail(*self) }
+    #[verifier::external_body]
+    fn to_primitive<U: pdf::object::Updater>(&self, update: &mut U) -> Result<Primitive> { unimplemented!() }
+}
+impl WObjectWrite for Rectangle {
+    open spec fn writes(&self) -> Primitive { abs_writes(*self) }
+    open spec fn wfail(&self) -> bool { abs_wfail(*self) }
+    #[verifier::external_body]
+    fn to_primitive<U: pdf::object::Updater>(&self, update: &mut U) -> Result<Primitive> { unimplemented!() }
+}
+impl WObjectWrite for Content {
+    open spec fn writes(&self) -> Primitive { abs_writes(*self) }
+    open spec fn wfail(&self) -> bool { abs_wfail(*self) }
+    #[verifier::external_body]
+    fn to_primitive<U: pdf::object::Updater>(&self, update: &mut U) -> Result<Primitive> { unimplemented!() }
+}
+impl WObjectWrite for Outlines {
+    open spec fn writes(&self) -> Primitive { abs_writes(*self) }
+    open spec fn wfail(&self) -> bool { abs_wfail(*self) }
+    #[verifier::external_body]
+    fn to_primitive<U: pdf::object::Updater>(&self, update: &mut U) -> Result<Primitive> { unimplemented!() }
+}
+impl WObjectWrite for InteractiveFormDictionary {
+    open spec fn writes(&self) -> Primitive { abs_writes(*self) }
+    open spec fn wfail(&self) -> bool { abs_wfail(*self) }
+    #[verifier::external_body]
+    fn to_primitive<U: pdf::object::Updater>(&self, update: &mut U) -> Result<Primitive> { unimplemented!() }
+}
+impl WObjectWrite for StructTreeRoot {
+    open spec fn writes(&self) -> Primitive { abs_writes(*self) }
+    open spec fn wfail(&self) -> bool { abs_wfail(*self) }
+    #[verifier::external_body]
+    fn to_primitive<U: pdf::object::Updater>(&self, update: &mut U) -> Result<Primitive> { unimplemented!() }
+}
+// the page-tree wrapper: its hand-written writer (types.rs) is extracted and proved to write the reference to the node
+impl PagesRc {
+//@@ PagesRc::to_primitive
+}
+impl WObjectWrite for PagesRc {
+    open spec fn writes(&self) -> Primitive { Primitive::Reference(self.rc().inner) }
+    open spec fn wfail(&self) -> bool { false }
+    fn to_primitive<U: pdf::object::Updater>(&self, update: &mut U) -> Result<Primitive> { PagesRc::to_primitive(self, update) }
+}
+
+// ---- the derive's documented meaning of the field attributes (units/expansions)
+// an entry is written under its key unless the field's primitive form is Null
+pub open spec fn put(m: DMap, k: Seq<char>, v: Primitive) -> DMap { if v is Null { m } else { m.insert(k, v) } }
+pub open spec fn nm(s: Seq<char>) -> Primitive { Primitive::Name(SmallString { chars: Ghost(s) }) }
+// `#[pdf(indirect)]`: the entry `e` written for a field whose primitive form is `v` -- nothing for Null, a reference as
+// it is, anything else stored as a NEW object through the updater and referenced
+pub open spec fn indirect_entry(v: Primitive, e: Primitive, c0: Map<PlainRef, Primitive>, c1: Map<PlainRef, Primitive>) -> bool {
+    match v {
+        Primitive::Null => e is Null,
+        Primitive::Reference(rf) => e == v,
+        p => e matches Primitive::Reference(rf) && !c0.dom().contains(rf) && c1.dom().contains(rf) && c1[rf] == p,
+    }
+}
+
+// Page (types.rs): /Type /Page, the `#[pdf(other)]` catch-all underneath, `/Resources` indirect
+pub open spec fn page_dict(x: Page, res: Primitive) -> DMap {
+    put(put(put(put(put(put(put(put(put(put(put(x.other@.insert("Type"@, nm("Page"@)),
+        "Parent"@, x.parent.writes()),
+        "Resources"@, res),
+        "MediaBox"@, x.media_box.writes()),
+        "CropBox"@, x.crop_box.writes()),
+        "TrimBox"@, x.trim_box.writes()),
+        "Contents"@, x.contents.writes()),
+        "Rotate"@, x.rotate.writes()),
+        "Metadata"@, x.metadata.writes()),
+        "LGIDict"@, x.lgi.writes()),
+        "VP"@, x.vp.writes()),
+        "Annots"@, x.annotations.writes())
+}
+pub open spec fn page_written(x: Page, d: DMap, c0: Map<PlainRef, Primitive>, c1: Map<PlainRef, Primitive>) -> bool {
+    match x.resources.writes() {
+        Primitive::Null => d =~= page_dict(x, Primitive::Null),
+        Primitive::Reference(rf) => d =~= page_dict(x, Primitive::Reference(rf)),
+        p => d.dom().contains("Resources"@) && d =~= page_dict(x, d["Resources"@])
+            && indirect_entry(p, d["Resources"@], c0, c1),
+    }
+}
+// PageTree (types.rs): /Type /Pages and six entries
+pub open spec fn pagetree_dict(x: PageTree) -> DMap {
+    put(put(put(put(put(put(Map::<Seq<char>, Primitive>::empty().insert("Type"@, nm("Pages"@)),
+        "Parent"@, x.parent.writes()),
+        "Kids"@, x.kids.writes()),
+        "Count"@, x.count.writes()),
+        "Resources"@, x.resources.writes()),
+        "MediaBox"@, x.media_box.writes()),
+        "CropBox"@, x.crop_box.writes())
+}
+// Catalog (types.rs): /Type /Catalog and nine entries
+pub open spec fn catalog_dict(x: Catalog) -> DMap {
+    put(put(put(put(put(put(put(put(put(Map::<Seq<char>, Primitive>::empty().insert("Type"@, nm("Catalog"@)),
+        "Version"@, x.version.writes()),
+        "Pages"@, x.pages.writes()),
+        "PageLabels"@, x.page_labels.writes()),
+        "Names"@, x.names.writes()),
+        "Dests"@, x.dests.writes()),
+        "Outlines"@, x.outlines.writes()),
+        "AcroForm"@, x.forms.writes()),
+        "Metadata"@, x.metadata.writes()),
+        "StructTreeRoot"@, x.struct_tree_root.writes())
+}
+impl Page {
+//@@ Page::to_dict
+}
+impl PageTree {
+//@@ PageTree::to_dict
+}
+impl Catalog {
+//@@ Catalog::to_dict
+}
+
+// ---- C10: the entries a reader REQUIRES are in the written dictionary whatever their value -- in particular
+// `/Count 0` of an empty page list and `/Rotate 0` (ISO 32000-1 Table 29 /Count, /Kids, /Type required; Table 30 /Parent
+// required, /Rotate optional with default 0: the writer may omit it at 0 only because the reader's default is 0 -- the
+// derive never omits it)
+pub proof fn lemma_pagetree_required(x: PageTree)
+    ensures
+        pagetree_dict(x).dom().contains("Type"@) && pagetree_dict(x)["Type"@] == nm("Pages"@),
+        x.count <= i32::MAX ==> pagetree_dict(x).dom().contains("Count"@) && pagetree_dict(x)["Count"@] == Primitive::Integer(x.count as i32),
+        !(x.kids.writes() is Null) ==> pagetree_dict(x).dom().contains("Kids"@) && pagetree_dict(x)["Kids"@] == x.kids.writes(),
+        x.parent is None ==> !pagetree_dict(x).dom().contains("Parent"@),
+{
+    reveal_strlit("Type"); reveal_strlit("Parent"); reveal_strlit("Kids"); reveal_strlit("Count"); reveal_strlit("Resources"); reveal_strlit("MediaBox"); reveal_strlit("CropBox"); reveal_strlit("Pages"); assert("Count"@.len() == 5); assert("Count"@[0] == 'C'); assert("CropBox"@.len() == 7); assert("Kids"@.len() == 4); assert("Kids"@[0] == 'K'); assert("MediaBox"@.len() == 8); assert("Pages"@.len() == 5); assert("Pages"@[0] == 'P'); assert("Parent"@.len() == 6); assert("Resources"@.len() == 9); assert("Type"@.len() == 4); assert("Type"@[0] == 'T');
+}
+pub proof fn lemma_page_required(x: Page, e: Primitive)
+    ensures
+        page_dict(x, e).dom().contains("Type"@) && page_dict(x, e)["Type"@] == nm("Page"@),
+        page_dict(x, e).dom().contains("Parent"@) && page_dict(x, e)["Parent"@] == Primitive::Reference(x.parent.rc().inner),
+        page_dict(x, e).dom().contains("Rotate"@) && page_dict(x, e)["Rotate"@] == Primitive::Integer(x.rotate),
+        // the catch-all never hides a declared entry, and its other entries are all there
+        forall|k: Seq<char>| #![trigger x.other@.dom().contains(k)] x.other@.dom().contains(k) && !page_known(k) ==> page_dict(x, e).dom().contains(k) && page_dict(x, e)[k] == x.other@[k],
+{
+    reveal_strlit("Type"); reveal_strlit("Parent"); reveal_strlit("Resources"); reveal_strlit("MediaBox"); reveal_strlit("CropBox"); reveal_strlit("TrimBox"); reveal_strlit("Contents"); reveal_strlit("Rotate"); reveal_strlit("Metadata"); reveal_strlit("LGIDict"); reveal_strlit("VP"); reveal_strlit("Annots"); reveal_strlit("Page"); assert("Annots"@.len() == 6); assert("Annots"@[0] == 'A'); assert("Contents"@.len() == 8); assert("Contents"@[0] == 'C'); assert("CropBox"@.len() == 7); assert("CropBox"@[0] == 'C'); assert("LGIDict"@.len() == 7); assert("LGIDict"@[0] == 'L'); assert("MediaBox"@.len() == 8); assert("MediaBox"@[0] == 'M'); assert("MediaBox"@[2] == 'd'); assert("Metadata"@.len() == 8); assert("Metadata"@[0] == 'M'); assert("Metadata"@[2] == 't'); assert("Page"@.len() == 4); assert("Page"@[0] == 'P'); assert("Parent"@.len() == 6); assert("Parent"@[0] == 'P'); assert("Resources"@.len() == 9); assert("Rotate"@.len() == 6); assert("Rotate"@[0] == 'R'); assert("TrimBox"@.len() == 7); assert("TrimBox"@[0] == 'T'); assert("Type"@.len() == 4); assert("Type"@[0] == 'T'); assert("VP"@.len() == 2);
+}
+pub open spec fn page_known(k: Seq<char>) -> bool {
+    k == "Type"@ || k == "Parent"@ || k == "Resources"@ || k == "MediaBox"@ || k == "CropBox"@ || k == "TrimBox"@ || k == "Contents"@
+    || k == "Rotate"@ || k == "Metadata"@ || k == "LGIDict"@ || k == "VP"@ || k == "Annots"@
+}
+pub proof fn lemma_catalog_required(x: Catalog)
+    ensures
+        catalog_dict(x).dom().contains("Type"@) && catalog_dict(x)["Type"@] == nm("Catalog"@),
+        catalog_dict(x).dom().contains("Pages"@) && catalog_dict(x)["Pages"@] == Primitive::Reference(x.pages.rc().inner),
+{
+    reveal_strlit("Type"); reveal_strlit("Version"); reveal_strlit("Pages"); reveal_strlit("PageLabels"); reveal_strlit("Names"); reveal_strlit("Dests"); reveal_strlit("Outlines"); reveal_strlit("AcroForm"); reveal_strlit("Metadata"); reveal_strlit("StructTreeRoot"); reveal_strlit("Catalog"); assert("AcroForm"@.len() == 8); assert("AcroForm"@[0] == 'A'); assert("Catalog"@.len() == 7); assert("Catalog"@[0] == 'C'); assert("Dests"@.len() == 5); assert("Dests"@[0] == 'D'); assert("Metadata"@.len() == 8); assert("Metadata"@[0] == 'M'); assert("Names"@.len() == 5); assert("Names"@[0] == 'N'); assert("Outlines"@.len() == 8); assert("Outlines"@[0] == 'O'); assert("PageLabels"@.len() == 10); assert("Pages"@.len() == 5); assert("Pages"@[0] == 'P'); assert("StructTreeRoot"@.len() == 14); assert("Type"@.len() == 4); assert("Version"@.len() == 7); assert("Version"@[0] == 'V');
 }
 
 }
